@@ -3,18 +3,31 @@
 package api
 
 import (
+	"bytes"
+	"errors"
 	"fmt"
+	"io"
 	"net/http"
 	"net/url"
 	"path"
+	"strconv"
 	"strings"
 	"testing"
+	"time"
 
 	"github.com/gin-gonic/gin"
 	"github.com/google/uuid"
 
+	"github.com/bluenviron/mediamtx/internal/conf"
+	"github.com/bluenviron/mediamtx/internal/defs"
+	"github.com/bluenviron/mediamtx/internal/playback"
 	"github.com/bluenviron/mediamtx/internal/protocols/httpp"
+	"github.com/bluenviron/mediamtx/internal/protocols/moq/controlmessage"
+	"github.com/bluenviron/mediamtx/internal/protocols/moq/subgroup"
+	"github.com/bluenviron/mediamtx/internal/protocols/moq/varint"
 	"github.com/bluenviron/mediamtx/internal/servers/hls"
+	"github.com/bluenviron/mediamtx/internal/servers/rtmp"
+	"github.com/bluenviron/mediamtx/internal/servers/rtsp"
 	"github.com/bluenviron/mediamtx/internal/servers/srt"
 	"github.com/bluenviron/mediamtx/internal/servers/webrtc"
 	"github.com/bluenviron/mediamtx/internal/verifutil"
@@ -56,6 +69,211 @@ func c35rtcOracles(p string) string {
 		}
 	}
 	return c35groups(m1) + " " + c35groups(m2) + " " + u + " " + verifutil.HexS(path.Clean(p))
+}
+
+func c35moqErr(err error) string {
+	if errors.Is(err, io.EOF) || errors.Is(err, io.ErrUnexpectedEOF) {
+		return "short"
+	}
+	m := err.Error()
+	switch {
+	case strings.Contains(m, "not enough bytes"), strings.Contains(m, "invalid track name length"):
+		return "short"
+	case strings.Contains(m, "too many namespace fields"):
+		return "toomany"
+	case strings.Contains(m, "properties too large"), strings.Contains(m, "payload too large"):
+		return "toolarge"
+	case strings.Contains(m, "unsupported parameter type"), strings.Contains(m, "unsupported token alias type"),
+		strings.Contains(m, "unknown message type"), strings.Contains(m, "unexpected status"):
+		return "unsupported"
+	case strings.Contains(m, "unexpected empty object"):
+		return "emptyobj"
+	case strings.Contains(m, "unexpected second object"):
+		return "secondobj"
+	}
+	return "other:" + strings.ReplaceAll(m, " ", "_")
+}
+
+func c35vi(v uint64) []byte { return varint.Varint(v).Marshal() }
+
+// lengths / counts a hostile peer would announce
+func c35len(r *verifutil.Rand, actual int) uint64 {
+	switch r.Intn(10) {
+	case 0:
+		return uint64(1)<<63 + uint64(r.Intn(1<<20)) // 9-byte varint, top bit set: int(l) < 0
+	case 1:
+		return ^uint64(0) - uint64(r.Intn(3))
+	case 2:
+		return uint64(1)<<62 + uint64(r.Intn(100))
+	case 3:
+		return uint64(actual + 1 + r.Intn(3))
+	case 4:
+		return uint64(1) << uint(r.Intn(64))
+	case 5:
+		if actual > 0 {
+			return uint64(actual - 1)
+		}
+	}
+	return uint64(actual)
+}
+
+func c35moqOptions(r *verifutil.Rand) []byte {
+	var b []byte
+	for n := r.Intn(4); n >= 0; n-- {
+		delta := uint64(r.Intn(6))
+		if r.Intn(10) == 0 {
+			delta = c35len(r, 3)
+		}
+		b = append(b, c35vi(delta)...)
+		val := r.Bytes(r.Intn(6))
+		if r.Intn(3) == 0 {
+			b = append(b, c35vi(c35len(r, 0))...) // as a plain varint value (even option)
+		} else {
+			b = append(b, c35vi(c35len(r, len(val)))...)
+			b = append(b, val...)
+		}
+	}
+	return b
+}
+
+func c35moqMsg(r *verifutil.Rand) []byte {
+	var payload []byte
+	var t uint64
+	switch r.Intn(8) {
+	case 0, 1, 2: // SETUP (uni stream) / CLIENT_SETUP (control stream): option list
+		t = []uint64{0x2F00, 0x20, 0x21}[r.Intn(3)]
+		payload = c35moqOptions(r)
+	case 3, 4: // SUBSCRIBE / PUBLISH: request id, namespace, track name, [alias], parameters, [properties]
+		t = []uint64{0x03, 0x1d}[r.Intn(2)]
+		payload = c35vi(uint64(r.Intn(300)))
+		nparts := r.Intn(3)
+		payload = append(payload, c35vi(c35len(r, nparts))...)
+		for i := 0; i < nparts; i++ {
+			part := r.Bytes(r.Intn(5))
+			payload = append(payload, c35vi(c35len(r, len(part)))...)
+			payload = append(payload, part...)
+		}
+		tn := r.Bytes(r.Intn(4))
+		payload = append(payload, c35vi(c35len(r, len(tn)))...)
+		payload = append(payload, tn...)
+		if t == 0x1d {
+			payload = append(payload, c35vi(uint64(r.Intn(5)))...)
+		}
+		np := r.Intn(3)
+		payload = append(payload, c35vi(c35len(r, np))...)
+		for i := 0; i < np; i++ {
+			tok := r.Bytes(r.Intn(5))
+			inner := append(append(c35vi(3), c35vi(uint64(r.Intn(3)))...), tok...)
+			d := uint64(0)
+			if i == 0 {
+				d = 3
+			}
+			payload = append(payload, c35vi(d)...)
+			payload = append(payload, c35vi(c35len(r, len(inner)))...)
+			payload = append(payload, inner...)
+		}
+		if t == 0x1d && r.Bool() {
+			payload = append(payload, c35vi(uint64(2*r.Intn(6)+1))...)
+			payload = append(payload, c35vi(c35len(r, 2))...)
+			payload = append(payload, 1, 2)
+		}
+	case 5: // the acknowledgements a client may also send
+		t = []uint64{0x04, 0x05, 0x1e, 0x07}[r.Intn(4)]
+		payload = append(c35vi(c35len(r, 1)), c35vi(c35len(r, 0))...)
+		payload = append(payload, c35vi(c35len(r, 2))...)
+		payload = append(payload, r.Bytes(r.Intn(4))...)
+	case 6:
+		t = c35len(r, 0x20)
+		payload = r.Bytes(r.Intn(10))
+	default:
+		return r.Bytes(r.Intn(24))
+	}
+	n := len(payload)
+	if r.Intn(8) == 0 {
+		n = r.Intn(70000)
+	}
+	b := append(c35vi(t), byte(n>>8), byte(n))
+	return append(b, payload...)
+}
+
+func c35moqSG(r *verifutil.Rand) []byte {
+	hp := r.Bool()
+	b := []byte{0x30}
+	if hp {
+		b[0] |= 1
+	}
+	if r.Intn(6) == 0 {
+		b[0] = byte(r.Intn(256))
+		hp = b[0]&1 != 0
+	}
+	b = append(b, c35vi(uint64(r.Intn(9)))...)
+	b = append(b, c35vi(c35len(r, 5))...)
+	for i := 0; i < 2; i++ {
+		b = append(b, c35vi(uint64(r.Intn(3)))...)
+		if hp {
+			props := append(c35vi(6), c35vi(uint64(r.Intn(1000)))...)
+			b = append(b, c35vi(c35len(r, len(props)))...)
+			b = append(b, props...)
+		}
+		pl := r.Bytes(r.Intn(5))
+		if i == 1 && r.Intn(3) != 0 {
+			pl = nil
+		}
+		b = append(b, c35vi(c35len(r, len(pl)))...)
+		if len(pl) == 0 {
+			b = append(b, byte(3+r.Intn(2)))
+		}
+		b = append(b, pl...)
+	}
+	if r.Intn(4) == 0 {
+		b = b[:r.Intn(len(b)+1)]
+	}
+	return b
+}
+
+func c35req(r *defs.PathAccessRequest) string {
+	if r == nil {
+		return "reject"
+	}
+	u, p := "", ""
+	if r.Credentials != nil {
+		u, p = r.Credentials.User, r.Credentials.Pass
+	}
+	return fmt.Sprintf("req %s %s %s %s %s", c35b01(r.Publish), verifutil.HexS(r.Name), verifutil.HexS(r.Query),
+		verifutil.HexS(u), verifutil.HexS(p))
+}
+
+func c35timeOk(s string) bool {
+	_, err := time.Parse(time.RFC3339, s)
+	return err == nil
+}
+
+func c35durOk(s string) bool {
+	if _, err := strconv.ParseFloat(s, 64); err == nil {
+		return true
+	}
+	_, err := time.ParseDuration(s)
+	return err == nil
+}
+
+func c35nameErr(err error) string {
+	if err == nil {
+		return "ok"
+	}
+	m := err.Error()
+	switch {
+	case strings.Contains(m, "cannot be empty"):
+		return "bad empty"
+	case strings.Contains(m, "begin with a slash"):
+		return "bad leading"
+	case strings.Contains(m, "end with a slash"):
+		return "bad trailing"
+	case strings.Contains(m, "can contain only"):
+		return "bad chars"
+	case strings.Contains(m, "dot path segments"):
+		return "bad dots"
+	}
+	return "bad other"
 }
 
 func verifC35Exec(op string) string {
@@ -122,6 +340,53 @@ func verifC35Exec(op string) string {
 			return "other " + verifutil.HexS(arg)
 		}
 		return kind
+	case "rtsp":
+		return rtsp.VerifC35Guard(f[1], verifutil.UnHexS(f[2]))
+	case "srtconn":
+		return c35req(srt.VerifC35Conn(verifutil.UnHexS(f[1])))
+	case "rtmp":
+		p, q := verifutil.UnHexS(f[2]), verifutil.UnHexS(f[3])
+		vals := (&url.URL{RawQuery: q}).Query()
+		if verifutil.HexS(vals.Get("user")) != f[4] || verifutil.HexS(vals.Get("pass")) != f[5] {
+			return "bad-oracle"
+		}
+		return c35req(rtmp.VerifC35Conn(f[1] == "1", p, q))
+	case "vname":
+		name := verifutil.UnHexS(f[1])
+		if c35b01(conf.VerifC35RePathName(name)) != f[2] {
+			return "bad-oracle"
+		}
+		return c35nameErr(conf.IsValidPathName(name))
+	case "pbget":
+		pa, st, du, fo := verifutil.UnHexS(f[3]), verifutil.UnHexS(f[4]), verifutil.UnHexS(f[5]), verifutil.UnHexS(f[6])
+		if c35b01(conf.VerifC35RePathName(pa)) != f[7] || c35b01(c35timeOk(st)) != f[8] || c35b01(c35durOk(du)) != f[9] {
+			return "bad-oracle"
+		}
+		q := url.Values{"path": {pa}, "start": {st}, "duration": {du}, "format": {fo}}.Encode()
+		return playback.VerifC35Request(false, q, f[1] == "1", f[2] == "1")
+	case "pblist":
+		pa, st, en := verifutil.UnHexS(f[3]), verifutil.UnHexS(f[4]), verifutil.UnHexS(f[5])
+		if c35b01(conf.VerifC35RePathName(pa)) != f[6] || c35b01(c35timeOk(st)) != f[7] || c35b01(c35timeOk(en)) != f[8] {
+			return "bad-oracle"
+		}
+		q := url.Values{"path": {pa}, "start": {st}, "end": {en}}.Encode()
+		return playback.VerifC35Request(true, q, f[1] == "1", f[2] == "1")
+	case "ctype":
+		return verifutil.HexS(httpp.ParseContentType(verifutil.UnHexS(f[1])))
+	case "moq":
+		b := verifutil.UnHex(f[2])
+		rd := bytes.NewReader(b)
+		var err error
+		if f[1] == "msg" {
+			_, err = controlmessage.Read(rd)
+		} else {
+			var sg subgroup.SubGroup
+			err = sg.Read(rd)
+		}
+		if err != nil {
+			return "err " + c35moqErr(err)
+		}
+		return fmt.Sprintf("ok %d", len(b)-rd.Len())
 	case "pname":
 		ctx := &gin.Context{Params: gin.Params{{Key: "name", Value: verifutil.UnHexS(f[1])}}}
 		name, ok := paramName(ctx)
@@ -285,9 +550,115 @@ func c35query(r *verifutil.Rand) string {
 	return r.Pick("cookieCheck=1", "cookieCheck=1", "cookieCheck=1&a=b")
 }
 
+func c35name(r *verifutil.Rand) string {
+	switch r.Intn(10) {
+	case 0:
+		return ""
+	case 1:
+		return "/" + c35seg(r)
+	case 2:
+		return c35seg(r) + "/"
+	case 3:
+		return c35word(r)
+	case 4:
+		return r.Pick(".", "..", "a/./b", "a/../b", "../a", "a/..", "a..b", ".a", "a/.b", "...")
+	}
+	n := 1 + r.Intn(3)
+	parts := make([]string, n)
+	for i := range parts {
+		parts[i] = r.Pick("a", "live", "cam_1", "my-stream", "x.y", "A9", "..", ".", "é", "a b", "")
+		if r.Intn(3) != 0 {
+			parts[i] = r.Pick("a", "live", "cam_1", "my-stream", "x.y", "A9")
+		}
+	}
+	return strings.Join(parts, "/")
+}
+
+func c35time(r *verifutil.Rand) string {
+	return r.Pick("2024-01-02T03:04:05Z", "2024-01-02T03:04:05+02:00", "2024-01-02T03:04:05.123Z", "", "now", "2024-13-02T03:04:05Z",
+		"2024-01-02 03:04:05", "1700000000", "2024-01-02T03:04:05", "9999-12-31T23:59:59Z", "0000-01-01T00:00:00Z")
+}
+
+func c35dur(r *verifutil.Rand) string {
+	return r.Pick("10", "0.5", "1e3", "-5", "NaN", "Inf", "1e400", "10s", "1h2m", "", "abc", "5x", "9223372036854775807", "1e30", "0x10", "1_0")
+}
+
+func c35extra(r *verifutil.Rand) string {
+	switch r.Intn(8) {
+	case 7:
+		p := c35path(r)
+		if r.Intn(4) == 0 {
+			p = r.Pick("", "/", "a", "//", "\x00", "/a/b?c", "*")
+		}
+		return "rtsp " + r.Pick("describe", "announce", "setup") + " " + verifutil.HexS(p)
+	case 0:
+		return "srtconn " + verifutil.HexS(c35srt(r))
+	case 1:
+		p := r.Pick("", "/", "//", "///a", "a") + c35name(r)
+		if r.Intn(8) == 0 {
+			p = r.Pick("", "/", "//")
+		}
+		q := r.Pick("", "user=u&pass=p", "user=a%20b", "pass=x&user=", "user=u;pass=p", "%zz", "user=%ff", "a=b&user=x&user=y")
+		vals := (&url.URL{RawQuery: q}).Query()
+		return fmt.Sprintf("rtmp %d %s %s %s %s", r.Intn(2), verifutil.HexS(p), verifutil.HexS(q),
+			verifutil.HexS(vals.Get("user")), verifutil.HexS(vals.Get("pass")))
+	case 2:
+		n := c35name(r)
+		return fmt.Sprintf("vname %s %s", verifutil.HexS(n), c35b01(conf.VerifC35RePathName(n)))
+	case 3, 4:
+		pa, st, du := c35name(r), c35time(r), c35dur(r)
+		if r.Intn(3) != 0 {
+			pa = r.Pick("a", "live/cam_1", "x.y")
+		}
+		fo := r.Pick("", "fmp4", "mp4", "mp4", "ts", "FMP4", "\x00")
+		auth := 1
+		if r.Intn(6) == 0 {
+			auth = 0
+		}
+		return fmt.Sprintf("pbget %d %d %s %s %s %s %s %s %s", auth, r.Intn(2), verifutil.HexS(pa), verifutil.HexS(st), verifutil.HexS(du),
+			verifutil.HexS(fo), c35b01(conf.VerifC35RePathName(pa)), c35b01(c35timeOk(st)), c35b01(c35durOk(du)))
+	case 5:
+		pa, st, en := c35name(r), c35time(r), c35time(r)
+		if r.Intn(3) != 0 {
+			pa = r.Pick("a", "live/cam_1", "x.y")
+		}
+		auth := 1
+		if r.Intn(6) == 0 {
+			auth = 0
+		}
+		conf01 := 1
+		if r.Intn(4) == 0 {
+			conf01 = 0
+		}
+		return fmt.Sprintf("pblist %d %d %s %s %s %s %s %s", auth, conf01, verifutil.HexS(pa), verifutil.HexS(st), verifutil.HexS(en),
+			c35b01(conf.VerifC35RePathName(pa)), c35b01(c35timeOk(st)), c35b01(c35timeOk(en)))
+	default:
+		v := r.Pick("application/sdp", " application/sdp ; charset=utf-8", "application/trickle-ice-sdpfrag", ";", "", ";;", "\t a\r\n;b",
+			"text/plain;", " ", "a;b;c")
+		if r.Intn(3) == 0 {
+			b := r.Bytes(r.Intn(8))
+			for i := range b {
+				b[i] &= 0x7f
+			}
+			v = string(b)
+		}
+		return "ctype " + verifutil.HexS(v)
+	}
+}
+
 func verifC35Gen(r *verifutil.Rand, i int, thorough bool) []string {
 	var op string
-	switch r.Intn(8) {
+	switch r.Intn(13) {
+	case 10, 11, 12:
+		op = c35extra(r)
+	case 8:
+		op = "moq msg " + verifutil.Hex(c35moqMsg(r))
+	case 9:
+		if r.Intn(3) == 0 {
+			op = "moq sg " + verifutil.Hex(c35moqSG(r))
+		} else {
+			op = "moq msg " + verifutil.Hex(c35moqMsg(r))
+		}
 	case 0, 1:
 		op = "srt " + verifutil.HexS(c35srt(r))
 	case 2:
@@ -329,6 +700,9 @@ func verifC35Gen(r *verifutil.Rand, i int, thorough bool) []string {
 
 func verifC35Class(op, impl string) string {
 	f := strings.Fields(op)
+	if f[0] == "ctype" {
+		return "ctype=ok"
+	}
 	a := impl
 	if i := strings.IndexByte(impl, ' '); i >= 0 {
 		a = impl[:i]
